@@ -59,9 +59,36 @@ def ops_for(room_bits, room_refs, seed=0):
     sizes = [s for s in sizes if 1 <= s <= 1031]
     out.append(('store_bit', 1, 0, lambda b: b.store_bit(1)))
     out.append(('store_bool', 1, 0, lambda b: b.store_bool(True)))
+    def bits_arg(form, n):
+        """the same n bits in every argument form store_bits accepts; a TvmBitarray longer than a cell arises from the
+        caller's own `+` of two loaded bit strings"""
+        from bitarray import bitarray
+        from pytoniq_core.boc.tvm_bitarray import TvmBitarray
+        if form == 'str':
+            return '1' * n
+        if form == 'list':
+            return [1] * n
+        if form == 'bitarray':
+            return bitarray('1' * n)
+        parts = []
+        left = n
+        while left > 0 or not parts:
+            k = min(left, 1000)
+            t = TvmBitarray()
+            t.extend('1' * k)
+            parts.append(t)
+            left -= k
+        acc = parts[0]
+        for t in parts[1:]:
+            acc = acc + t
+        return acc
+    for n in sizes + [2046]:
+        for form in ('str', 'list', 'bitarray', 'tvm'):
+            if form == 'str' and n <= 1023:
+                out.append((f'store_bits:{n}', n, 0, lambda b, n=n: b.store_bits('1' * n)))
+            else:
+                out.append((f'store_bits[{form}]:{n}', n, 0, lambda b, n=n, form=form: b.store_bits(bits_arg(form, n))))
     for n in sizes:
-        if n <= 1023:
-            out.append((f'store_bits:{n}', n, 0, lambda b, n=n: b.store_bits('1' * n)))
         if n <= 256:
             out.append((f'store_uint:{n}', n, 0, lambda b, n=n: b.store_uint((1 << n) - 1, n)))
         if n <= 257:
